@@ -1,21 +1,485 @@
-"""C01 — no dangling waiter: inductive typestate invariant + drop/pin/lock rules."""
-from rl import entry_methods
-from specs import STATE_STRUCT_FLOOR, QUEUE_FLOOR, FUTURE_FLOOR, TYPESTATE
+"""C01 — no dangling waiter: inductive typestate invariant + drop / pin / lock / panic-site rules."""
+from rl import (entry_methods, loc_endswith, path_cond, trace_summary, where, const_of, fmt_val, fmt_loc, fields_of,
+                NODE_ADTS)
+from common import (scan_calls, scan_aggregates, poll_variant, own_node_roots, contains)
+from specs import STATE_STRUCT_FLOOR, QUEUE_FLOOR, FUTURE_FLOOR, TYPESTATE, LOCK_BYPASS
 from typestate import check_typestate
+from engine import NONE, OPTION
+from facts import ty_adt_paths
+from lib import CheckerError
+
+LOCAL_ACCESS_TRAITS = ('channel::channel_future::ChannelSendAccess', 'channel::channel_future::ChannelReceiveAccess',
+                       'channel::state_broadcast::ChannelReceiveAccess', 'timer::timer::TimerAccess')
+PANICS = ('begin_panic', 'panic', 'panic_fmt', 'assert_failed', 'unreachable_display', 'panic_display',
+          'expect_failed', 'unwrap_failed', 'panic_nounwind', 'panic_explicit')
+
+
+class SV:
+    def __init__(self, store):
+        self.store = store
+
+
+def variant_of(E, path, v):
+    if v[0] == 'agg':
+        return v[2]
+    k = E.variant_known(path.facts, v)
+    return k[1] if k and k[0] == 'eq' else None
 
 
 def run(C, R):
+    R.explanation = ('Inductive invariant Inv: a node is in queue Q <=> its poll state is a linked state of Q; at most '
+                     'one queue, at most once; only nodes of pinned, live futures are linked.  I1 typestate: for every '
+                     'MIR path of every lock-protected state function (helpers inlined, queue ops summarised) and '
+                     'every node it touches, linked(final state) == membership after the path\'s queue operations, '
+                     'assuming the same at entry; a panic on a failed unlink must be infeasible; I2 every future '
+                     'type that embeds a node has a Drop whose every path with a live handle takes the lock and '
+                     'calls the state\'s remove function on its own node (dyn calls fanned out to every '
+                     'implementor); I3 a Ready return leaves the own node unlinked; I4 add_front / insert are '
+                     'reached from the public API only through Future::poll / Stream::poll_next (Pin<&mut Self>), '
+                     'and the streams poll their inner future in place; I5 the internal lock is never bypassed '
+                     '(zero-count scan with positive control; every state method receiver comes out of a lock '
+                     'guard); I6 a node-bearing value is moved only before its first poll or after completion; '
+                     'I7 shared futures restore their handle on Pending; P every explicit panic site of the crate '
+                     'falls in a classified category (documented contract, or discharged by a named rule); a new '
+                     'unclassified site is reported.')
+    R.trusted += ['rustc nightly MIR', 'queue-op summaries (C20 checks their schema)', 'lock_api::Mutex',
+                  'rules/specs.py TYPESTATE table']
+    R.assumptions += ['panics raised by user code inside the lock (Waker::clone, T::clone, Ord) are outside the '
+                      'documented contract', 'list / heap link surgery enters through summaries (C20)']
     for cfg in C.configs():
         F = C.facts(cfg)
         E = C.engine(cfg)
+        EF = C.engine(cfg, fanout_traits=LOCAL_ACCESS_TRAITS)
         roles = C.roles(cfg)
         CG = C.cg(cfg)
         R.configs.append(cfg)
         R.floor('state-structs[%s]' % cfg, len(roles.state_structs), STATE_STRUCT_FLOOR)
         R.floor('queues[%s]' % cfg, sum(len(s['queues']) for s in roles.state_structs.values()), QUEUE_FLOOR)
+        nfut = len(roles.futures)
+        R.floor('node-bearing-futures[%s]' % cfg, nfut, 6 if cfg == 'none' else FUTURE_FLOOR)
+        state_paths = {}
+        # ---------------- I1 + I3
         for sp in sorted(roles.state_structs):
             for m in entry_methods(F, CG, sp):
                 paths = E.run(m['path'])
+                state_paths[m['path']] = paths
                 R.add_paths(m['path'], len(paths))
                 check_typestate(R, E, F, roles, sp, m, paths, 'C01.I1')
-    R.explanation = 'typestate'
+                owns = own_node_roots(F, m)
+                if not owns:
+                    continue
+                for path in paths:
+                    if path.exit != 'return' or poll_variant(E, path) != 'Ready':
+                        continue
+                    for root, data in owns.items():
+                        qs = [q for q, (_k, d) in roles.state_structs[sp]['queues'].items() if d == data]
+                        if not qs:
+                            continue
+                        tab = TYPESTATE[sp][qs[0]]
+                        sf = roles.node_data[data]['state_field']
+                        sloc = root + ('data', sf)
+                        v = E.read(SV(path.store), sloc)
+                        s1 = variant_of(E, path, v) if v[0] != 'init' else None
+                        if v[0] == 'init':
+                            k0 = path.facts.get(('discr', v))
+                            s1 = k0[1] if k0 and k0[0] == 'eq' else None
+                        fair = const_of(E, path.facts, ('init', (('P', 'self'), 'is_fair')))
+                        linked = tab.get(s1)
+                        if linked == 'fair':
+                            linked = bool(fair) if fair is not None else True
+                        if s1 is not None and linked is False:
+                            R.ok('C01.I3', '%s|Ready => %s (unlinked)|%s' % (m['path'], s1, path_cond(E, path)))
+                        else:
+                            R.fail('C01.I3', [m['path'], 'ready-with-linked-node', str(s1)],
+                                   '%s returns Ready while its own node is left in state %s (a linked state): the '
+                                   'future terminates and its Drop will not unlink it' % (m['path'], s1),
+                                   '%s:%s' % (m['file'], m['line']), {'trace': trace_summary(path)})
+        # ---------------- I2 drop reaches unlink
+        state_adts = set(roles.state_structs)
+        for fut, info in sorted(roles.futures.items()):
+            drops = [fn for fn in F.raw['fns'] if fn.get('impl_adt') == fut and (fn.get('impl_trait') or '').endswith('ops::Drop')]
+            if not drops:
+                a = F.adt(fut)
+                R.fail('C01.I2', [fut, 'no-drop-impl'],
+                       '%s embeds a wait node but has no Drop impl: a pending future would stay linked after it is '
+                       'freed' % fut, '%s:%s' % (a['file'], a['line']))
+                continue
+            d = drops[0]
+            hloc = (('P', 'self'), info['handle_field'])
+            nloc = (('P', 'self'), info['node_field'])
+            paths = EF.run(d['path'])
+            R.add_paths(d['path'], len(paths))
+            live = 0
+            for path in paths:
+                if path.exit != 'return':
+                    continue
+                h = E.variant_known(path.facts, ('init', hloc))
+                if h != ('eq', 'Some'):
+                    continue
+                live += 1
+                locks = [i for i, e in enumerate(path.events) if e['k'] == 'lock']
+                unl = [i for i, e in enumerate(path.events)
+                       if e['k'] == 'call' and e.get('mode') in ('inline', 'fanout')
+                       and (F.fn(e['callee']) or {}).get('impl_adt') in state_adts
+                       and any(a == ('ref', nloc) for a in e['args'])]
+                if locks and unl and locks[0] < unl[0]:
+                    R.ok('C01.I2', '%s|%s' % (d['path'], path_cond(E, path)),
+                         {'drop': d['path'], 'unlink': path.events[unl[0]]['callee'], 'under_lock': True})
+                else:
+                    R.fail('C01.I2', [d['path'], 'drop-does-not-unlink'],
+                           '%s: a path with a live handle does not reach the state\'s remove function on its own '
+                           'node under the lock' % d['path'], '%s:%s' % (d['file'], d['line']),
+                           {'trace': trace_summary(path)})
+            if live == 0:
+                R.fail('C01.I2', [d['path'], 'no-live-handle-path'], '%s never looks at a live handle' % d['path'],
+                       '%s:%s' % (d['file'], d['line']))
+        # ---------------- I4 link only when pinned
+        linkers = set()
+        for fn, t, cl in scan_calls(F, lambda ci: ci.get('impl_adt') in ('intrusive_double_linked_list::LinkedList',
+                                                                          'intrusive_pairing_heap::PairingHeap')
+                                    and ci['name'] in ('add_front', 'insert')):
+            if fn['path'].startswith('intrusive_'):
+                continue
+            linkers.add(CG.root_fn(fn['path']))
+        R.floor('C01.I4 linking-functions[%s]' % cfg, len(linkers), 8)
+        trait_decl = {}
+        for fn in F.raw['fns']:
+            tr = fn.get('impl_trait')
+            if tr and tr in F.traits:
+                trait_decl[fn['path']] = '%s::%s' % (tr, fn['name'])
+        for lk in sorted(linkers):
+            # upward closure to API roots
+            seen, work, roots = set(), [lk], set()
+            while work:
+                p = work.pop()
+                if p in seen:
+                    continue
+                seen.add(p)
+                callers = [c for c, _ in CG.callers_of(p)]
+                if p in trait_decl:
+                    callers += [c for c, _ in CG.callers_of(trait_decl[p])]
+                if not callers:
+                    roots.add(p)
+                work += callers
+            for r in roots:
+                fn = F.fn(r)
+                tr = (fn.get('impl_trait') or '') if fn else ''
+                pinned = fn and fn.get('name') in ('poll', 'poll_next') and tr.endswith(('::Future', '::Stream')) \
+                    and fn['locals'][1]['ty'].get('path') == 'std::pin::Pin'
+                if pinned:
+                    R.ok('C01.I4', '%s reached only via %s' % (lk, r))
+                else:
+                    R.fail('C01.I4', [lk, 'linked-from-unpinned-root', r],
+                           '%s links a node and is reachable from %s, which does not take Pin<&mut Self>' % (lk, r),
+                           '%s:%s' % (fn['file'], fn['line']) if fn else None)
+        for fn in F.raw['fns']:
+            if fn.get('name') != 'poll_next':
+                continue
+            for path in E.run(fn['path']):
+                for e in path.events:
+                    if e['k'] == 'call' and e['name'] == 'poll' and e.get('mode') == 'inline' and e['fn'] == fn['path'] \
+                            or (e['k'] == 'call' and e['name'] == 'poll' and e.get('mode') == 'inline'
+                                and (F.fn(e['fn']) or {}).get('kind') == 'closure'):
+                        a0 = e['args'][0]
+                        inplace = a0[0] == 'pin' and a0[1][0] == 'ref' and a0[1][1][0] == ('P', 'self')
+                        if inplace:
+                            R.ok('C01.I4', '%s polls its inner future in place' % fn['path'])
+                        else:
+                            R.fail('C01.I4', [fn['path'], 'inner-future-not-in-place'],
+                                   '%s pins something that is not a field of the pinned stream: %s' % (
+                                       fn['path'], fmt_val(a0)), where(F, e))
+        # ---------------- I5 no lock bypass
+        nb = 0
+        for fn, t, cl in scan_calls(F, lambda ci: ci['path'].startswith('lock_api::') and ci['name'] in LOCK_BYPASS):
+            nb += 1
+            R.fail('C01.I5', [fn['path'], t['func']['fn']['path']],
+                   '%s bypasses the internal lock with %s' % (fn['path'], t['func']['fn']['path']), F.loc(fn, t['ln']))
+        for fn, t, cl in scan_calls(F, lambda ci: ci['path'] in ('std::mem::forget',) or ci['name'] == 'leak'):
+            if any('MutexGuard' in a for a in t['argtys']):
+                nb += 1
+                R.fail('C01.I5', [fn['path'], 'guard-leaked'], '%s leaks a lock guard' % fn['path'], F.loc(fn, t['ln']))
+        if nb == 0:
+            R.ok('C01.I5', 'no lock bypass (zero-count)')
+        nlock = len(scan_calls(F, lambda ci: ci['path'].startswith('lock_api::') and ci['name'] == 'lock'))
+        R.floor('C01.I5 control(lock_api lock calls)[%s]' % cfg, nlock, 30)
+        nrecv = 0
+        for sp in sorted(roles.state_structs):
+            own = set(m['path'] for m in F.methods_of(sp))
+            for m in F.methods_of(sp):
+                if m.get('name') == 'new':
+                    continue
+                for c, _ln in CG.callers_of(m['path']):
+                    if c in own:
+                        continue
+                    for path in E.run(c):
+                        for e in path.events:
+                            if e['k'] == 'call' and e['callee'] == m['path'] and e['fn'] == c:
+                                nrecv += 1
+                                a0 = e['args'][0]
+                                if a0[0] == 'ref' and '<locked>' in a0[1]:
+                                    R.ok('C01.I5', '%s -> %s under the lock' % (c, m['path']))
+                                else:
+                                    R.fail('C01.I5', [c, m['path'], 'receiver-not-from-guard'],
+                                           '%s calls %s on a receiver that does not come out of a lock guard' % (
+                                               c, m['path']), where(F, e))
+        R.floor('C01.I5 state-method-call-sites[%s]' % cfg, nrecv, 40)
+        # ---------------- I6 address stability: by-value temporaries of node-bearing types
+        bearing = set(roles.futures) | set(NODE_ADTS)
+        wrappers = set()
+        for a in F.raw['adts']:
+            for v in a['variants']:
+                for f in v['fields']:
+                    if f['ty'].get('k') == 'adt' and f['ty']['path'] in roles.futures:
+                        wrappers.add(a['path'])
+        bearing |= wrappers
+        for fn in F.raw['fns']:
+            if fn['path'].startswith('intrusive_') or (fn.get('impl_trait') or '').endswith('fmt::Debug'):
+                continue
+            recv = fn['locals'][1]['ty'] if fn['arg_count'] >= 1 else None
+            by_ref_self = recv is not None and (recv.get('k') == 'ref' or recv.get('path') == 'std::pin::Pin')
+            if not by_ref_self:
+                continue   # constructors / consuming functions run before the first poll
+            for li, l in enumerate(fn['locals']):
+                if li <= fn['arg_count']:
+                    continue
+                t = l['ty']
+                if t.get('k') in ('ref', 'ptr'):
+                    continue
+                hit = [p for p in ty_adt_paths(t) if p in bearing]
+                if not hit or t.get('k') == 'adt' and t['path'] in ('std::pin::Pin',):
+                    continue
+                if t.get('k') == 'adt' and t['path'] == 'std::option::Option' and t['args'] and \
+                        t['args'][0].get('k') in ('ref',):
+                    continue
+                if _contains_only_behind_pointer(t, bearing):
+                    continue
+                # a by-value temporary of a node-bearing type in a &self / Pin<&mut Self> function
+                ok, why = _moved_only_fresh_or_terminated(E, F, fn, li)
+                if ok:
+                    R.ok('C01.I6', '%s|_%d: %s|%s' % (fn['path'], li, t['str'], why))
+                else:
+                    R.fail('C01.I6', [fn['path'], 'node-bearing-value-moved', t['str']],
+                           '%s holds a by-value temporary of type %s: a future that may be linked is moved (%s)' % (
+                               fn['path'], t['str'], why), '%s:%s' % (fn['file'], fn['line']))
+        for fn, t, cl in scan_calls(F, lambda ci: ci['path'] in ('std::mem::swap', 'std::mem::replace', 'std::mem::take')):
+            if any(any(b.split('::')[-1] in a for b in bearing) for a in t['argtys']):
+                R.fail('C01.I6', [fn['path'], t['func']['fn']['path']],
+                       '%s uses %s on a node-bearing value' % (fn['path'], t['func']['fn']['path']), F.loc(fn, t['ln']))
+        # ---------------- I7 shared futures restore the handle on Pending
+        for fut, info in sorted(roles.futures.items()):
+            ht = info.get('handle_ty') or {}
+            if 'Arc' not in ht.get('str', '') and 'Shared' not in ht.get('str', ''):
+                continue
+            polls = [fn for fn in F.raw['fns'] if fn.get('impl_adt') == fut and fn.get('name') == 'poll']
+            for fn in polls:
+                for path in E.run(fn['path']):
+                    if path.exit != 'return':
+                        continue
+                    top = variant_of(E, path, path.ret)
+                    if top != 'Pending':
+                        continue
+                    v = E.read(SV(path.store), (('P', 'self'), info['handle_field']))
+                    if variant_of(E, path, v) == 'Some':
+                        R.ok('C01.I7', '%s|Pending => handle restored' % fn['path'])
+                    else:
+                        R.fail('C01.I7', [fn['path'], 'handle-not-restored'],
+                               '%s returns Pending with its handle taken: Drop would skip the unlink' % fn['path'],
+                               '%s:%s' % (fn['file'], fn['line']), {'trace': trace_summary(path)})
+        # ---------------- P panic sites
+        panic_sites(C, R, F, E, roles, cfg)
+
+
+def _contains_only_behind_pointer(t, bearing, depth=0):
+    """True if every occurrence of a node-bearing ADT in t is behind a reference / pointer / Pin / Arc"""
+    k = t.get('k')
+    if depth > 8:
+        return True
+    if k in ('ref', 'ptr', 'dyn'):
+        return True
+    if k == 'adt':
+        if t['path'] in bearing:
+            return False
+        if t['path'] in ('std::pin::Pin', 'std::sync::Arc', 'std::ptr::NonNull'):
+            return True
+        return all(_contains_only_behind_pointer(x, bearing, depth + 1) for x in t.get('args', []))
+    if k == 'tuple':
+        return all(_contains_only_behind_pointer(x, bearing, depth + 1) for x in t['tys'])
+    return True
+
+
+def _moved_only_fresh_or_terminated(E, F, fn, li):
+    """the temporary `_li` of a node-bearing type is either freshly constructed in this function (value
+    of a constructor call, stored before any poll) or taken out of a slot on a path where the inner
+    future has just completed (Ready) or was never stored"""
+    reasons = set()
+    for path in E.run(fn['path']):
+        for i, e in enumerate(path.events):
+            if e['k'] in ('take', 'replace') and e['fn'] == fn['path']:
+                old = e['old']
+                if e['k'] == 'replace':
+                    # replace(Some(new future)): the old slot must be empty
+                    k = E.variant_known(path.facts, old)
+                    if old == NONE or k == ('eq', 'None'):
+                        reasons.add('stored into an empty slot')
+                        continue
+                    return False, 'a stored future is overwritten while it may be pending'
+                k = E.variant_known(path.facts, old)
+                if old == NONE or k == ('eq', 'None'):
+                    reasons.add('empty slot')
+                    continue
+                if not loc_endswith(e['loc'], 'future'):
+                    continue
+                # taking a stored inner future: only after its poll returned Ready on this path
+                ready = any(a['k'] == 'assume' and a['expr'][0] == 'isv' and a['expr'][2] == 'Ready' and a['desc'] == ('eq', 1)
+                            for a in path.events[:i]) or any(
+                    kk[0] == 'discr' and vv == ('eq', 'Ready') for kk, vv in path.facts.items() if isinstance(kk, tuple))
+                if ready:
+                    reasons.add('taken after completion (Ready)')
+                else:
+                    return False, 'a stored inner future is moved out while it may still be linked'
+    return True, ', '.join(sorted(reasons)) or 'constructor value'
+
+
+def panic_sites(C, R, F, E, roles, cfg):
+    """every explicit panic site is classified; unclassified => violation"""
+    n = 0
+    cats = {}
+    for fn in F.raw['fns']:
+        for b in fn['blocks']:
+            if b['cleanup']:
+                continue
+            t = b['term']
+            if t['k'] != 'call' or 'fn' not in t['func']:
+                continue
+            ci = t['func']['fn']
+            name = ci['name']
+            if not ((name in PANICS and t['diverges']) or (name in ('expect', 'unwrap') and
+                                                           ci['path'].startswith(('std::option', 'std::result')))):
+                continue
+            n += 1
+            msg = ''
+            for a in t['args']:
+                if 'const' in a and isinstance(a['const'], str) and a['const'].startswith('"'):
+                    msg = a['const']
+            p = fn['path']
+            tr = fn.get('impl_trait') or ''
+            cat = None
+            if p.startswith(('intrusive_double_linked_list::', 'intrusive_pairing_heap::', '<intrusive_')):
+                cat = 'container-internal consistency assert (C20 checks the schema; preconditions are the unsafe contract)'
+            elif p.lstrip('<').startswith('buffer::'):
+                cat = 'RingBuf contract ("Panics if ..."): push guarded by C09.R1, pop by the emptiness test (below)'
+            elif name == 'expect' and fn.get('name') == 'poll' and tr.endswith('::Future'):
+                cat = 'documented: poll after completion (shape checked by C17.R3)'
+            elif 'after completion' in msg:
+                cat = 'documented: poll after completion'
+            elif 'could not be removed from wait queue' in msg:
+                cat = 'unreachable by Inv: C01.I1 proves the failed-unlink panic infeasible on every path'
+            elif 'Reached maximum refcount' in msg:
+                cat = 'documented overflow guard of the handle counter (as Arc)'
+            elif p.endswith('MockClock::set_time'):
+                cat = 'documented limit of MockClock'
+            elif 'not supported for unbuffered' in msg:
+                cat = 'documented: try_send panics on unbuffered channels'
+            elif name == 'expect' and ('contain value' in _expect_msg(fn, b) or 'must be available' in _expect_msg(fn, b)):
+                cat = 'unreachable by the value invariant V (checked below): a live Registered/Unregistered sender holds its value'
+            elif name == 'unreachable_display' and fn.get('name') == 'try_receive':
+                cat = 'unreachable: RecvPollState::Notified is never produced in the oneshot modules (C12.R5)'
+            elif 'is_fair' in msg or 'Fair semaphores' in msg:
+                cat = 'unreachable by the fair hand-over invariant (C04.R1+R2 / C07.R1+R4): nobody but the notified head can take the resource'
+            elif name == 'unwrap' and fn.get('name') in ('poll_next',) or (fn['kind'] == 'closure' and 'poll_next' in p):
+                cat = 'unreachable: the slot was filled on the line before (no feasible None path, checked below)'
+            elif name == 'assert_failed' and fn.get('name') == 'try_take_value_from_sender':
+                cat = 'unreachable by the refill invariant (C09.R2): with capacity > 0 no sender stays parked while the buffer is empty'
+            elif p.endswith('DropBomb as std::ops::Drop>::drop'):
+                cat = 'by design: a panicking comparison aborts'
+            if cat is None:
+                R.fail('C01.P', [p, name, msg[:40]],
+                       'unclassified explicit panic site in %s (%s %s): a call through the safe API may panic on a '
+                       'contract-respecting history' % (p, name, msg), F.loc(fn, t['ln']))
+            else:
+                cats[cat] = cats.get(cat, 0) + 1
+                R.ok('C01.P', '%s|%s|%s' % (p, name, msg[:30]), {'site': p, 'callee': name, 'category': cat})
+    R.floor('C01.P panic-sites[%s]' % cfg, n, 40 if cfg == 'none' else 60)
+    R.extra.setdefault('panic_site_categories', {})[cfg] = cats
+    # value invariant V: a sender's value leaves its node only together with SendComplete (token) or on a
+    # terminating path of its own future (Ready / cancel)
+    st = 'channel::mpmc::ChannelState'
+    CG = C.cg(cfg)
+    for m in entry_methods(F, CG, st):
+        for path in E.run(m['path']):
+            if path.exit != 'return':
+                continue
+            for e in path.events:
+                if e['k'] != 'take' or not loc_endswith(e['loc'], 'value'):
+                    continue
+                node = e['loc'][:1]
+                if node[0][0] == 'tok':
+                    ok = any(w['k'] == 'write' and w['loc'] == node + ('data', 'state') and w['val'][0] == 'agg'
+                             and w['val'][2] == 'SendComplete' for w in path.events)
+                    what = 'token value taken => SendComplete'
+                else:
+                    ok = poll_variant(E, path) == 'Ready'
+                    what = 'own value taken => Ready (terminating)'
+                if ok:
+                    R.ok('C01.P.V', '%s|%s|%s' % (m['path'], what, path_cond(E, path)))
+                else:
+                    R.fail('C01.P.V', [m['path'], 'value-taken-from-live-sender'],
+                           '%s takes the value out of a sender that stays alive in a state that expects a value' %
+                           m['path'], where(F, e), {'trace': trace_summary(path)})
+            # pop only behind the emptiness test
+            for i, e in enumerate(path.events):
+                if e['k'] == 'call' and e['name'] == 'pop' and 'RingBuf' in e['callee']:
+                    tested = any(c['k'] == 'call' and c['name'] == 'is_empty' and const_of(E, path.facts, c['ret']) == 0
+                                 for c in path.events[:i])
+                    if tested:
+                        R.ok('C01.P.pop', '%s|pop after !is_empty' % m['path'])
+                    else:
+                        R.fail('C01.P.pop', [m['path'], 'pop-without-emptiness-test'],
+                               '%s pops the buffer without a preceding !is_empty() on the path (RingBuf::pop panics '
+                               'when empty)' % m['path'], where(F, e))
+    # stream unwrap: no feasible None path in the stream's own frame
+    for fn in F.raw['fns']:
+        if fn.get('name') != 'poll_next':
+            continue
+        bad = False
+        for path in E.run(fn['path']):
+            for e in path.events:
+                if e['k'] == 'panic' and e.get('what') == 'unwrap(None)' and e.get('name') == 'unwrap' and \
+                        (e['fn'] == fn['path'] or (F.fn(e['fn']) or {}).get('parent') == fn['path']):
+                    bad = True
+        if bad:
+            R.fail('C01.P', [fn['path'], 'stream-unwrap-feasible'], '%s can unwrap an empty inner-future slot' % fn['path'],
+                   '%s:%s' % (fn['file'], fn['line']))
+        else:
+            R.ok('C01.P', '%s|inner-future unwrap has no feasible None path' % fn['path'])
+
+
+def _const_str_of_local(fn, l, depth=0):
+    if depth > 4:
+        return ''
+    for bb in fn['blocks']:
+        for s in bb['stmts']:
+            if s['k'] == 'assign' and s['place']['l'] == l and not s['place']['p']:
+                rv = s['rv']
+                c = (rv.get('use') or {}).get('const')
+                if isinstance(c, str) and c.startswith('"'):
+                    return c
+                src = rv.get('ref') or (rv.get('use') or {}).get('copy') or (rv.get('use') or {}).get('move')
+                if src:
+                    r = _const_str_of_local(fn, src['l'], depth + 1)
+                    if r:
+                        return r
+    return ''
+
+
+def _expect_msg(fn, b):
+    t = b['term']
+    for a in t['args']:
+        if 'const' in a and isinstance(a['const'], str) and a['const'].startswith('"'):
+            return a['const']
+        pl = a.get('move') or a.get('copy')
+        if pl and not pl['p']:
+            r = _const_str_of_local(fn, pl['l'])
+            if r:
+                return r
+    return ''
